@@ -176,6 +176,40 @@ func (a *EpochBitmapAllocator) Release(ctx context.Context, subscriberID string)
 	return nil
 }
 
+// SetAllocation records that subscriberID holds ip (for replaying from the distributed store).
+// It fails if ip is outside the pool or actively held by another subscriber.
+func (a *EpochBitmapAllocator) SetAllocation(subscriberID string, ip net.IP) error {
+	a.mu.Lock()
+	defer a.mu.Unlock()
+
+	idx, err := a.ipToIndex(ip)
+	if err != nil {
+		return err
+	}
+	if idx == 0 || idx == a.totalIPs-1 {
+		return fmt.Errorf("IP %s is not assignable", ip)
+	}
+
+	if holder, exists := a.ipToSubscriber[idx]; exists && holder != subscriberID {
+		if !a.isGenerationFree(a.getGeneration(idx), a.freeThreshold()) {
+			return fmt.Errorf("IP %s already allocated to %s", ip, holder)
+		}
+		// Expired holder that was not cleaned up yet
+		delete(a.subscribers, holder)
+	}
+
+	// Clear any other allocation of this subscriber
+	if oldIdx, exists := a.subscribers[subscriberID]; exists && oldIdx != idx {
+		a.setGeneration(oldIdx, (a.currentGeneration()+2)%4)
+		delete(a.ipToSubscriber, oldIdx)
+	}
+
+	a.setGeneration(idx, a.currentGeneration())
+	a.subscribers[subscriberID] = idx
+	a.ipToSubscriber[idx] = subscriberID
+	return nil
+}
+
 // Lookup returns the IP allocated to a subscriber, or nil if not found.
 func (a *EpochBitmapAllocator) Lookup(subscriberID string) net.IP {
 	a.mu.RLock()
